@@ -90,6 +90,40 @@ impl DataLog {
         })
     }
 
+    #[cfg(feature = "verif-hooks")]
+    pub fn verif_logs(&self) -> Vec<crate::verif::LogSnapshot> {
+        let mut o: Vec<_> = self
+            .filter_indexes
+            .iter()
+            .map(|(filter, idx)| {
+                let data = self.native.get(*idx).unwrap();
+                let (head, tail) = data.log._head_and_tail();
+                crate::verif::LogSnapshot {
+                    filter: filter.clone(),
+                    filter_idx: *idx,
+                    head,
+                    tail,
+                    next_offset: data.log.next_offset(),
+                    parked: data
+                        .waiters
+                        .waiters()
+                        .iter()
+                        .map(|(id, r)| (*id, r.filter.clone()))
+                        .collect(),
+                }
+            })
+            .collect();
+        o.sort_by_key(|l| l.filter_idx);
+        o
+    }
+
+    #[cfg(feature = "verif-hooks")]
+    pub fn verif_retained(&self) -> Vec<String> {
+        let mut o: Vec<_> = self.retained_publishes.keys().cloned().collect();
+        o.sort();
+        o
+    }
+
     pub fn meter(&mut self, filter: &str) -> Option<&mut SubscriptionMeter> {
         let data = self.native.get_mut(*self.filter_indexes.get(filter)?)?;
         Some(&mut data.meter)
@@ -383,6 +417,11 @@ impl AckLog {
             committed: VecDeque::with_capacity(100),
             recorded: VecDeque::with_capacity(100),
         }
+    }
+
+    #[cfg(feature = "verif-hooks")]
+    pub fn verif_lens(&self) -> (usize, usize) {
+        (self.committed.len(), self.recorded.len())
     }
 
     pub fn connack(&mut self, id: ConnectionId, ack: ConnAck, props: Option<ConnAckProperties>) {
